@@ -16,10 +16,10 @@ CONSTANTS
  VDefect = "none"
  Mode = "S"
  MCSPE = 2
- MCEpochs <- E01
+ MCEpochs <- E0
  MCSlots = {1}
  MCSOps <- OpsDuties
- MCValSets <- A123or13
+ MCValSets <- A123
  MCMaxReal = 1
  MCBlocks <- Blk1
  MCErrs = FALSE
